@@ -247,3 +247,42 @@ prop(
         "testing.AllocsPerRun averages over 100 runs with integer division: sporadic runtime allocations do not count, an allocation per call does",
     ],
 )
+
+prop(
+    "C16",
+    timeout={"quick": 300, "thorough": 3000},
+    maxstack=1 << 20,
+    heapmax=1 << 30,
+    confirm_timeout=60,
+    max_counters=["max_ns_per_byte_for_inputs_over_4KiB"],
+    rule="exhaustive: every string of length <= 5 (quick) / 6 (thorough) over the 20-symbol alphabet "
+         "[ ] : ? = & % / @ . - + 0 9 a x # \\ space u-umlaut after each of the prefixes stun: stuns: turn: turns: stun:// and the empty "
+         "prefix; plus seeded random inputs (grammar products of schemes/hosts/ports/queries, their mutations, random bytes incl. control "
+         "characters and invalid UTF-8, repeated structures, inputs of 4 KiB..1 MiB). Each worker child runs with a 1 MiB goroutine "
+         "stack limit and a 1 GiB heap watchdog and notes every input in a crash journal before the call; the supervising process "
+         "decides: a child that dies or does not return is re-run on the journalled block alone, and a second death/non-return "
+         "(60 s watchdog against microseconds of normal cost) is the violation. evaluations = ParseURI calls; distinct_nontrivial = "
+         "exhaustive blocks + distinct random strings",
+    assumptions=[
+        "'time and stack bounded by the input length' is decided per input as: returns within the watchdog under a 1 MiB stack and 1 GiB heap; time per byte is recorded as data",
+    ],
+)
+
+prop(
+    "C17",
+    batches={"quick": 8, "thorough": 16},
+    timeout={"quick": 300, "thorough": 3000},
+    rule="(1) complete grammar product 4 schemes x 7 hosts (reg-name, IPv4, bracketed IPv6, zone id, punycode) x 15 port forms (absent, "
+         "0, 1, 3478, 5349, 65535, 65536, 99999, -1, 2^32+1, x, 12a, +80, 080, empty) x 13 query forms: expected verdict and components "
+         "known by construction, accepted URIs checked for scheme/host/port/transport invariants and ParseURI(u.String()) == u; "
+         "(2) random/grammar-mutated strings judged by invariants + round trip; (3) DialURI through an injected transport.Net that "
+         "records (network, address) and the bytes written: 16 parsed URIs covering every producible scheme/transport pair and IPv4/IPv6/"
+         "name hosts, and all 5x3 hand-made Scheme/Proto values x 2 hosts; one STUN indication is sent to tell plaintext from a TLS/DTLS "
+         "ClientHello and to look for the server name. evaluations = URIs parsed + dials; distinct_nontrivial = grammar points + "
+         "distinct accepted mutations + dial scenarios",
+    assumptions=[
+        "forms the statement does not determine (+80, 080, empty port, separator-only queries, repeated or upper-case transport) are judged by invariants and round trip only",
+        "the DTLS branch resolves through the process resolver, so DTLS cases use IP literals and localhost",
+        "a TLS/DTLS ClientHello is recognised by record type 0x16 and version byte 0x03 / 0xfe; the server name by the host bytes in the hello",
+    ],
+)
